@@ -212,7 +212,7 @@ def run_cases(chk, prop, profile, ncases, per_bundle, configs, sd, label, split_
         d = os.path.join(rd, "%s-b%d" % (label, bi))
         C.write_module(d, bundle_sources(b), modname="gmb")
         ref = os.path.join(d, "ref.exe")
-        ok, out = C.go_build(d, ref)
+        ok, out = C.go_build(d, ref, go=C.ref_go())
         if not ok:
             return ("refbuild", out, None, None)
         refres, refdied = run_bundle(ref, [i for i, _ in b])
